@@ -39,6 +39,10 @@ struct Snapshot {
     nav_id: Result<(String, usize), String>,
     speech: Result<String, String>,
     braille: Result<String, String>,
+    overview: Result<String, String>,
+    /// braille of the same stored expression in another code (switched to and back inside the snapshot): "all later
+    /// output" includes output after the caller changes the code
+    other_code: Result<String, String>,
 }
 
 fn snapshot() -> Result<Snapshot, PanicInfo> {
@@ -49,7 +53,15 @@ fn snapshot() -> Result<Snapshot, PanicInfo> {
             Err(Fail::Panic(p)) => Err(p),
         }
     }
-    Ok(Snapshot { highlight_pref: f(api::get_pref("BrailleNavHighlight"))?, nav_id: f(api::nav_id())?, speech: f(api::speech())?, braille: f(api::braille(""))? })
+    let mut snap = Snapshot { highlight_pref: f(api::get_pref("BrailleNavHighlight"))?, nav_id: f(api::nav_id())?, speech: f(api::speech())?, braille: f(api::braille(""))?, overview: f(api::overview())?, other_code: Err("not taken".into()) };
+    if let Ok(Ok(code)) = f(api::get_pref("BrailleCode")) {
+        let other = if code == "UEB" { "LaTeX" } else { "UEB" };
+        if api::set_pref("BrailleCode", other).is_ok() {
+            snap.other_code = f(api::braille(""))?;
+        }
+        let _ = api::set_pref("BrailleCode", &code);
+    }
+    Ok(snap)
 }
 
 impl Property for C20 {
@@ -58,7 +70,15 @@ impl Property for C20 {
         "C20"
     }
     fn strategy(&self, tier: Tier) -> BoxedStrategy<Case> {
-        let operand = prop_oneof![4 => tok_ident(), 3 => "[0-9]{1,3}(\\.[0-9]{1,2})?".prop_map(|s| MNode::mn(&s)), 1 => one_char_of("αβΓΔ∞").prop_map(|s| MNode::mi(&s))].boxed();
+        let operand = prop_oneof![
+            4 => tok_ident(),
+            3 => "[0-9]{1,3}(\\.[0-9]{1,2})?".prop_map(|s| MNode::mn(&s)),
+            1 => one_char_of("αβΓΔ∞").prop_map(|s| MNode::mi(&s)),
+            // number tokens whose text some codes rewrite while brailling (Roman numerals, digit groups)
+            1 => select_str(ROMAN).prop_map(|s| MNode::mn(&s)),
+            1 => "[0-9]{1,3},[0-9]{3}(\\.[0-9])?".prop_map(|s| MNode::mn(&s)),
+        ]
+        .boxed();
         let tree = textbook(operand, TexCfg { depth: if tier == Tier::Thorough { 4 } else { 3 }, size: 14, tables: true, text: true }).prop_map(|n| MNode::math(vec![n]));
         let nav = proptest::collection::vec(sel(&NAV_COMMANDS[..17]).prop_map(|s| s.to_string()), 0..3);
         let extra = proptest::collection::vec(prop_oneof![4 => 0usize..200, 1 => Just(usize::MAX), 1 => Just(u32::MAX as usize), 1 => Just(usize::MAX / 3)], 0..3);
@@ -81,6 +101,22 @@ impl Property for C20 {
                 return Outcome::reject("navigation panic (C08/C11)");
             }
         }
+        // what the stored expression gives *before* any braille call: overview text and the braille of another code
+        // (get_braille itself is one of the queries that must leave all later output unchanged)
+        let flat = |r: Api<String>| match r {
+            Ok(s) => Some(Ok(s)),
+            Err(Fail::Err(e)) => Some(Err(e.chars().take(60).collect::<String>())),
+            Err(Fail::Panic(_)) => None,
+        };
+        let other = if case.code == "UEB" { "LaTeX" } else { "UEB" };
+        let first_look = |case: &Case| {
+            let ov = flat(api::overview());
+            let _ = api::set_pref("BrailleCode", other);
+            let ob = flat(api::braille(""));
+            let _ = api::set_pref("BrailleCode", &case.code);
+            (ov, ob)
+        };
+        let look0 = first_look(case);
         let plain = match api::braille("") {
             Ok(b) => b,
             Err(Fail::Err(_)) => return Outcome::reject("get_braille(\"\") Err (C15)"),
@@ -190,6 +226,20 @@ impl Property for C20 {
             }
         }
         let nontrivial = len >= 6 && ids.len() >= 4;
+        if viols.is_empty() {
+            let look1 = first_look(case);
+            if let ((Some(ov0), Some(ob0)), (Some(ov1), Some(ob1))) = (&look0, &look1) {
+                if ov0 != ov1 {
+                    viols.push(("not-pure:later-overview".into(), ctx(format!("the overview text differs after the braille queries
+before: {:?}
+after:  {:?}", ov0, ov1))));
+                } else if ob0 != ob1 {
+                    viols.push(("not-pure:later-braille-in-another-code".into(), ctx(format!("the braille in {} differs after the braille queries
+before: {:?}
+after:  {:?}", other, ob0, ob1))));
+                }
+            }
+        }
         let mut o = Outcome::from_violations(viols, nontrivial);
         o.classes = vec![format!("code:{}", case.code), format!("highlight:{}", case.highlight)];
         o
